@@ -284,8 +284,10 @@ def r06c(R):
                 for c in n.calls())]
             starts = [m for c in test_nodes for m, _l in c.succs
                       if m not in test_nodes]
-            if (f.short, 'inner') in PROGRESS_EXCEPTIONS and \
-                    'op.prec' in test:
+            nested = any(head.ast is not w and isinstance(w, ast.While)
+                         and any(x is head.ast for x in ast.walk(w))
+                         for w in ast.walk(f.node))
+            if (f.short, 'inner') in PROGRESS_EXCEPTIONS and nested:
                 R.note('not decided: %s inner loop - %s' % (
                     f.short, PROGRESS_EXCEPTIONS[(f.short, 'inner')]))
                 continue
@@ -601,12 +603,14 @@ def r06f(R):
     ex = job.methods['execute']
     cfg = A.cfg(ex)
     runs = A.calls_nodes(ex, 'Machine.run')
-    guards = [n for n in cfg.nodes if n.kind == 'cond'
+    guards = [(n, True) for n in cfg.nodes if n.kind == 'cond'
               and norm(n.ast) in ('self._program is not None', 'self._program')]
+    guards += [(n, False) for n in cfg.nodes if n.kind == 'cond'
+               and norm(n.ast) == 'self._program is None']
     ok = bool(runs and guards)
     if ok:
         reach = reachable_without_edges(cfg, cfg.entry,
-                                        set((g.id, True) for g in guards))
+                                        set((g.id, lab) for g, lab in guards))
         ok = all(r.id not in reach for r in runs)
     R.check(ex, 'run only when a program exists', ok,
             'execute() runs the machine even when there is no compiled program')
